@@ -181,7 +181,7 @@ inductive BodyRes where
   | ok (text : List Ch)     -- the text handed to macros_strip / macros_append
   | err                     -- an error was printed, -1 returned
   | fuel
-  deriving Repr
+  deriving Repr, DecidableEq
 
 /-- the `while (true)` loop of macros_parse that collects the text -/
 def bodyLoop (isDefine : Bool) (params : List (List Ch)) : Nat → BodySt → Prog BodyRes
